@@ -236,7 +236,10 @@ impl fmt::Debug for BorrowedKey<'_> {
 #[cfg(feature = "parking_lot")]
 use parking_lot as sync;
 #[cfg(not(feature = "parking_lot"))]
+#[cfg(not(assets_manager_verif))]
 use std::sync;
+#[cfg(all(not(feature = "parking_lot"), assets_manager_verif))]
+use detsim::stdsync as sync;
 
 pub(crate) use sync::{RwLockReadGuard, RwLockWriteGuard};
 
@@ -358,7 +361,10 @@ pub struct Private;
 pub(crate) use ahash::RandomState;
 
 #[cfg(not(feature = "ahash"))]
+#[cfg(not(assets_manager_verif))]
 pub(crate) use std::collections::hash_map::RandomState;
+#[cfg(all(not(feature = "ahash"), assets_manager_verif))]
+pub(crate) use detsim::hash::RandomState;
 
 pub(crate) struct HashMap<K, V>(StdHashMap<K, V, RandomState>);
 
